@@ -9,7 +9,9 @@ fn pf3(j: &J) -> [f32; 3] { let a = j.as_arr().unwrap(); [parse_fbits(&a[0]).unw
 fn u8_rgb_roundtrip(c: [u8; 3], r: &mut Report) {
     r.eval();
     let case = || obj! {"kind" => "u8rgb", "c" => c.to_vec()};
-    let res = caught(|| { let h = rgb(c[0], c[1], c[2]).to_hsl(); (h.0, h.to_rgb().0) });
+    // (the components are read through the public accessors, which must agree with the channel array)
+    let res = caught(|| { let h = rgb(c[0], c[1], c[2]).to_hsl(); if [h.h(), h.s(), h.l()] != h.0 { return Err(([h.h(), h.s(), h.l()], h.0)); } let b = h.to_rgb(); if [b.r(), b.g(), b.b()] != b.0 { return Err(([b.r(), b.g(), b.b()], b.0)); } Ok(([h.h(), h.s(), h.l()], b.0)) });
+    let res = match res { Ok(Err((acc, arr))) => { r.violation(format!("u8-accessors|{c:?}"), format!("rgb{c:?}: accessors report {acc:?}, channel array is {arr:?}"), case()); return; } Ok(Ok(x)) => Ok(x), Err(p) => Err(p) };
     match res {
         Err(p) => r.violation(format!("u8-rgb-panic|{c:?}"), format!("rgb{c:?}.to_hsl().to_rgb() panicked: {p}"), case()),
         Ok((h, back)) => {
@@ -55,9 +57,9 @@ fn f32_rgb_roundtrip(c: [f32; 3], r: &mut Report) {
     r.eval();
     let case = || obj! {"kind" => "f32rgb", "c" => f3(c)};
     let key = |cl: &str| format!("{cl}|{:.4},{:.4},{:.4}", c[0], c[1], c[2]);
-    let h = match caught(|| rgb(c[0], c[1], c[2]).to_hsl().0) {
+    let h = match caught(|| { let h = rgb(c[0], c[1], c[2]).to_hsl(); ([h.h(), h.s(), h.l()], h.0) }) {
         Err(p) => { r.violation(key("f32-to_hsl-panic"), format!("rgb{c:?}.to_hsl() panicked: {p}"), case()); return; }
-        Ok(h) => h,
+        Ok((acc, arr)) => { if acc.map(f32::to_bits) != arr.map(f32::to_bits) { r.violation(key("f32-accessors"), format!("rgb{c:?}.to_hsl(): accessors h/s/l report {acc:?}, channel array is {arr:?}"), case()); return; } acc }
     };
     if h.iter().any(|x| !(*x >= 0.0 && *x <= 1.0)) {
         r.violation(key("f32-hsl-out-of-range"), format!("rgb{c:?}.to_hsl() = {h:?} out of [0,1]"), case());
